@@ -63,7 +63,7 @@ CONSUMERS = ['drain', 'abort', 'close_only', 'drain_no_close']
 
 MULTIPART = ['ok', 'no_cid', 'attach_first', 'bad_charset',
              'nonascii_boundary', 'no_boundary', 'no_root', 'truncated',
-             'empty']
+             'empty', 'root_only', 'root_only_charset']
 # PEP 3333: PATH_INFO and QUERY_STRING may be omitted when empty
 ENV_MODES = ['full', 'full', 'full', 'omit_qs', 'mount_point']
 
